@@ -452,7 +452,64 @@ def r12(ctx):
                'the counter is reset/decremented on every path from the send to the mark: %s; or from the mark to the return: %s' % (before, after))
 
 
+def request_owns_data_rule(ctx, rid):
+    """a request created with new outlives the function that creates it: no reference (or pointer to a local) it keeps as a data
+    member may be bound to a local variable of the creating function"""
+    fb = ctx.fb
+    n = 0
+    seen = set()
+    for fn in fb.functions:
+        if fn.relfile not in ('src/ebusd/bushandler.cpp', 'src/ebusd/mainloop.cpp') or not fn.nodes or (fn.name, fn.sig) in seen:
+            continue
+        seen.add((fn.name, fn.sig))
+        for x, v in sorted(fn.nodes.items()):
+            if v['k'] != 'CXXNewExpr' or not (v.get('newt') or '').endswith('Request') or v.get('init') is None:
+                continue
+            ce = fn.nodes[fn.strip(v['init'], casts=True)]
+            if ce.get('k') != 'CXXConstructExpr':
+                continue
+            cls = fb.classes.get(v['newt'])
+            ctors = [f for f in fb.functions if f.name == ce.get('callee') and len(f.params) >= len(ce.get('args', []))]
+            if cls is None or not ctors:
+                raise AnalysisBroken('%s: class or constructor of %s not found' % (rid, v['newt']))
+            ct = ctors[0]
+            ctx.touch(fn)
+            ctx.touch(ct)
+            ftypes = {f_['name']: f_.get('t') or '' for f_ in cls.get('fields', [])}
+            n += 1
+            bad = []
+            for i in ct.inits:
+                t = ftypes.get(i.get('member'))
+                if t is None or not (t.rstrip().endswith('&')):
+                    continue
+                src = ct.nodes[ct.strip(i['init'], casts=True)]
+                if src.get('k') != 'DeclRefExpr' or src.get('rk') != 'param':
+                    continue
+                idx = [k for k, p_ in enumerate(ct.params) if p_.get('decl') == src.get('decl')]
+                if not idx or idx[0] >= len(ce.get('args', [])):
+                    continue
+                a = fn.nodes[fn.strip(ce['args'][idx[0]], casts=True)]
+                if a.get('k') == 'DeclRefExpr' and a.get('rk') == 'local' and not (a.get('t') or '').rstrip().endswith(('&', '*')):
+                    bad.append('member %s (%s) is bound to the local %s of %s' % (i.get('member'), t, a.get('name'), fn.name.split('::', 1)[1]))
+            ctx.ob(rid, fn, x, not bad, 'new %s in %s' % (v['newt'].split('::')[-1], fn.name.split('::', 1)[1]),
+                   'keeps no reference to a local of the creating function: %s%s' % (not bad, '' if not bad else ' - ' + '; '.join(bad)))
+    if n < 2:
+        raise AnalysisBroken('%s: only %d request allocations found' % (rid, n))
+
+
+def r13(ctx):
+    ctx.rule('C04.R13', 'a request is still intact when its completion callback runs: a request object created with new outlives '
+             'the function that creates it (the protocol thread completes it later), so none of its reference data members is '
+             'bound, through the constructor, to a local variable of the creating function - the restart decision of a scan '
+             'over several addresses would otherwise copy from a dead stack frame', minimum=2)
+    request_owns_data_rule(ctx, 'C04.R13')
+
+
 def run(ctx):
+    import rules.common as _cmn
+    ctx.rule('C04.R14', 'an argument is still the argument where it is read: a for loop that takes a by-value parameter over as its counter destroys the argument, so no read of that parameter is reachable behind such a loop - BusHandler::prepareScan decides who frees a scan request (deleteOnFinish) by slave == SYN; behind for (slave = 1; slave != 0; slave++) that test is always false and every asynchronous scan request stays in the finished queue for ever (checked against a positive example on every run)', minimum=3)
+    _cmn.loop_counter_param_rule(ctx, 'C04.R14', lambda f: f.relfile.startswith(('src/lib/ebus/', 'src/ebusd/')), 3)
+    r13(ctx)
     r12(ctx)
     r10(ctx)
     r7(ctx)
